@@ -71,6 +71,44 @@ type Cluster struct {
 	Cfg     Config
 	Members []*Member
 	nextIdx int
+	noWait  bool
+	pending []*Member
+}
+
+// StartTogether starts n members at once and waits until all of them are
+// bootstrapped. Needed when MemberCountQuorum > 1.
+func StartTogether(cfg Config, n int) (*Cluster, error) {
+	c := New(cfg)
+	c.noWait = true
+	for i := 0; i < n; i++ {
+		if _, err := c.AddMemberAt(0); err != nil {
+			return nil, err
+		}
+	}
+	c.noWait = false
+	deadline := time.Now().Add(40 * time.Second)
+	for _, m := range c.pending {
+		for !m.V.RT.IsBootstrapped() {
+			if time.Now().After(deadline) {
+				return nil, fmt.Errorf("member %s not bootstrapped within 40s", m.Name)
+			}
+			select {
+			case err := <-m.startErr:
+				return nil, fmt.Errorf("member start: %w", err)
+			default:
+			}
+			time.Sleep(10 * time.Millisecond)
+		}
+	}
+	c.mu.Lock()
+	c.Members = append(c.Members, c.pending...)
+	c.pending = nil
+	c.mu.Unlock()
+	if err := c.WaitStable(30 * time.Second); err != nil {
+		c.Shutdown()
+		return nil, err
+	}
+	return c, nil
 }
 
 var (
@@ -270,8 +308,13 @@ func (c *Cluster) AddMemberAt(port int) (*Member, error) {
 		mlPort := freePort()
 		cfg := c.memberConfig(p, mlPort)
 		for _, m := range c.Live() {
-			cfg.Peers = append(cfg.Peers, m.V.RT.Discovery().LocalNode().Address())
+			cfg.Peers = append(cfg.Peers, fmt.Sprintf("127.0.0.1:%d", m.cfg.MemberlistConfig.BindPort))
 		}
+		c.mu.Lock()
+		for _, pm := range c.pending {
+			cfg.Peers = append(cfg.Peers, fmt.Sprintf("127.0.0.1:%d", pm.cfg.MemberlistConfig.BindPort))
+		}
+		c.mu.Unlock()
 		db, err := olric.New(cfg)
 		if err != nil {
 			return nil, err
@@ -279,6 +322,18 @@ func (c *Cluster) AddMemberAt(port int) (*Member, error) {
 		m := &Member{DB: db, cfg: cfg, startErr: make(chan error, 1)}
 		go func() { m.startErr <- db.Start() }()
 		m.V = db.Verif()
+		if c.noWait {
+			// the caller waits for the bootstrap of all members together (needed when
+			// MemberCountQuorum > 1: a lone member never bootstraps)
+			m.Name = db.VerifName()
+			m.Emb = db.NewEmbeddedClient()
+			c.mu.Lock()
+			m.Idx = c.nextIdx
+			c.nextIdx++
+			c.pending = append(c.pending, m)
+			c.mu.Unlock()
+			return m, nil
+		}
 		// wait for bootstrap
 		deadline := time.Now().Add(30 * time.Second)
 		ok := false
